@@ -11,7 +11,9 @@ export GOFLAGS=-mod=mod GOPROXY=off GOSUMDB=off GOTOOLCHAIN=local
 rm -rf "$wt"; git -C /repo worktree prune
 mkdir -p /tmp/mev
 git -C /repo worktree add --detach "$wt" HEAD >/dev/null 2>&1 || { echo "$name: cannot create worktree"; exit 3; }
-cleanup() { git -C /repo worktree remove --force "$wt" >/dev/null 2>&1; rm -rf "$wt" "/verif/.build/bin-mut-$name" /verif/.build/alt-_tmp_mev_$name.*; }
+cleanup() { git -C /repo worktree remove --force "$wt" >/dev/null 2>&1; rm -rf "$wt" "/verif/.build/bin-mut-$name" /verif/.build/alt-_tmp_mev_$name.*
+  # keep the Go build cache bounded (entries not used for 90 minutes)
+  avail=$(df --output=avail -k / | tail -1); if [ "$avail" -lt 40000000 ]; then find "$(go env GOCACHE)" -type f -amin +90 -delete 2>/dev/null; fi; }
 trap cleanup EXIT
 if ! git -C "$wt" apply "$patch"; then echo "$name: patch does not apply"; exit 3; fi
 out="/verif/.build/mut/$name"; rm -rf "$out"; mkdir -p "$out"
